@@ -13,7 +13,8 @@ REQUIRED = ['C19.ensure1d_accepts_iff', 'C19.ensure1d_rejects_iff', 'C19.ensure1
             'C19.ensureVector_accepts_iff', 'C19.ensureVector_rejects_iff', 'C19.ensure2d_spec',
             'C19.ensureEqualDims_iff', 'C19.ensureEqualDims_axis_iff', 'C19.ensure_preserves_size',
             'C19.ensureAll_iff', 'C19.ensure1d_two_columns_current', 'C19.ensure1d_one_sample_current',
-            'C19.ensureVector_nd_current']
+            'C19.ensureVector_nd_current',
+            'C19.spectra_shape_checks_are_support_routines', 'C19.spectra_shape_checks_empty_list_differ']
 TRUSTED = [
     'PARTIAL (instance-only): that no routine modifies its input arrays / option dictionaries, that accepted layouts give '
     'bitwise identical values, that read-only arrays are accepted and that a repeated deterministic call is identical are facts '
